@@ -144,6 +144,30 @@ class HP(H):
         return f"{len(errs)}-parser-diagnostics"
 
 
+VALIDATE_SHAPES = {
+    # a literal followed by a postfix operator: the parser accepts or diagnoses it, the validation pass must come back either way
+    "timing-index": "1 dt [ 0 ] ;", "timing-call": "a = 1 ns ( 2 ) ;", "timing-unclosed-call": "9 s (", "int-index": "1 [ 0 ] ;", "float-call": "1.5 ( 2 ) ;",
+    "bits-index": '"01" [ 0 ] ;', "string-index": '"ab" [ 0 ] ;', "bool-call": "true ( 1 ) ;", "int-ident-index": "1 q [ 0", "timing-float-index": "1.5 us [ 0 ] ;",
+}
+
+
+class HV(H):
+    """the validation pass (oq3_syntax::validation::validate, real code from MIR) returns on every tree the parser builds for these shapes"""
+    def run(self, ex):
+        fam = self.fam; kit = fam.kit
+        _, name = self.task
+        self.symvars = {}
+        toks = [(semh.word_kind(fam, w), w, False) for w in VALIDATE_SHAPES[name].split()]
+        self.toks = toks
+        src = kit.source()
+        for kn, text, joint in toks:
+            src.tok(kn, text, joint)
+        root = src.build(ex)
+        errs = kit.validate(ex, root)          # a Panic raised in here is the violation
+        ex.obligations += 1
+        return "validated"
+
+
 def native_confirm(text):
     """re-derives the verdict on the native pipeline: parse diagnostics with byte ranges, char boundaries by Python"""
     o = native.run_one("parse " + native.hexs(text), "dev", timeout=20)
@@ -160,6 +184,39 @@ def native_confirm(text):
         if not (s_ <= e_ <= len(b)) or s_ not in bounds or e_ not in bounds:
             bad.append(e)
     return bad, o
+
+
+def run_validate(ctx, res, pid="C01"):
+    """C01, validation pass: both parse entry points run oq3_syntax::validation::validate on the tree; it must return on every tree the
+    parser can build.  Decided here on the literal-postfix shapes (real parser + real validate from MIR); a panic is confirmed natively."""
+    import hashlib
+    vtasks = [("validate", nm) for nm in VALIDATE_SHAPES]
+    fails, counts, on_result = semh.collector(res, label_of=lambda t: f"{t[0]}/{t[1]}")
+    st3, errs3 = explore.explore_many(semh.famfactory(ctx.known, ctx.seed, HV), vtasks, workers=min(ctx.workers, len(vtasks)), max_paths=20000, on_result=on_result, log=ctx.log)
+    res.merge_stats(st3)
+    ctx.log(f"validation pass on literal-postfix shapes: {st3.get('paths', 0)} paths over {len(vtasks)} shapes, panic={st3.get('panic', 0)} unsupported={st3.get('unsupported', 0)}")
+    for site, info in fails.items():
+        r0 = info["ex"][0]
+        if r0[1] != "panic":
+            res.inconclusive.append(f"{r0[1]} ({info['count']} paths): {site[:240]} e.g. {r0[3]!r}")
+            continue
+        o = native.run_one("parse " + native.hexs(r0[3]), "dev", timeout=20)
+        o2 = native.run_one("parse_check_lex " + native.hexs(r0[3]), "release", timeout=20)
+        if not (native.failed(o) and native.failed(o2)):
+            res.inconclusive.append(f"validation panic not reproduced natively: {site[:200]} e.g. {r0[3]!r}")
+            continue
+        res.validated += 1
+        kid = next((k["id"] for k in ctx.known if k.get("site") and re.search(k["site"], site)), None)
+        if kid:
+            if not any(h.startswith(kid + ":") for h in res.known_hits):
+                res.known_hits.append(f"{kid}: {[k for k in ctx.known if k['id'] == kid][0].get('what', '')} (e.g. {r0[3]!r})")
+            continue
+        what = {"site": site, "paths": info["count"], "source_text": r0[3], "native(dev parse, release parse_check_lex)": [str(o)[:200], str(o2)[:200]]}
+        rp = os.path.join(ctx.replay_dir, "validate_" + hashlib.sha1(site.encode()).hexdigest()[:10] + ".json")
+        json.dump({"property": pid, "kind": "parse_text", "line": "parse " + native.hexs(r0[3]), "source_text": r0[3], "what": what}, open(rp, "w"), indent=1)
+        res.violations.append({"what": json.dumps(what), "replay": rp})
+    res.functions_encoded += ["oq3_syntax::validation::validate (+ ast::expr_ext Literal::token / kind) on the parser's tree for literal-postfix shapes"]
+    res.bounds["validation_pass_shapes"] = len(vtasks)
 
 
 def run_escapes(ctx, res):
